@@ -399,9 +399,22 @@ _BINPREC = [
 ]
 
 
+BODY_FEATURES = ("vhost-user", "vhost-user-frontend", "vhost-user-backend", "vhost-kern", "vhost-vdpa", "vhost-net",
+                 "vhost-vsock", "postcopy")
+
+
 class Parser:
     def __init__(self, toks, where="?"):
         self.t, self.i, self.where = toks, 0, where
+
+    def attrs(self):
+        """consume `#[...]` attributes; returns True if the following item is compiled out"""
+        out = []
+        while self.at("#"):
+            k = match_close(self.t, self.i + 1)
+            out.append("".join(x.text for x in self.t[self.i:k + 1]))
+            self.i = k + 1
+        return cfg_excluded(out, BODY_FEATURES)
 
     def err(self, msg):
         line = self.t[self.i].line if self.i < len(self.t) else (self.t[-1].line if self.t else 0)
@@ -424,13 +437,26 @@ class Parser:
     def block(self):
         stmts = []
         while self.peek().kind != "eof":
+            if self.at("#"):
+                if self.attrs():
+                    # compiled out: parse the statement and drop it
+                    sub = Parser(self.t[self.i:], self.where)
+                    one = sub.one_stmt()
+                    self.i += sub.i
+                continue
             if self.at("let"):
                 self.eat()
                 mut = False
                 if self.at("mut"):
                     self.eat()
                     mut = True
-                name = self.eat().text
+                if self.at("("):
+                    # tuple pattern
+                    k = match_close(self.t, self.i)
+                    name = " ".join(x.text for x in self.t[self.i:k + 1])
+                    self.i = k + 1
+                else:
+                    name = self.eat().text
                 ty = None
                 if self.at(":"):
                     self.eat()
@@ -447,6 +473,10 @@ class Parser:
                 stmts.append(Node("return", e))
             else:
                 e = self.expr()
+                if self.peek().kind == "punct" and self.peek().text in ("=", "+=", "-=", "|=", "&=", "^=", "*=", "/=", "<<=", ">>="):
+                    op = self.eat().text
+                    rhs = self.expr()
+                    e = Node("assign", op, e, rhs)
                 if self.at(";"):
                     self.eat()
                     stmts.append(Node("stmt", e))
@@ -455,6 +485,23 @@ class Parser:
                 else:
                     stmts.append(Node("tail", e))
         return stmts
+
+    def one_stmt(self):
+        """parse exactly one statement (used to skip cfg'd-out statements)"""
+        if self.at("let"):
+            depth = 0
+            while True:
+                t = self.eat()
+                if t.text in OPEN:
+                    depth += 1
+                elif t.text in (")", "]", "}"):
+                    depth -= 1
+                elif t.text == ";" and depth == 0:
+                    return None
+        e = self.expr()
+        if self.at(";"):
+            self.eat()
+        return e
 
     def type_(self):
         # path type possibly with generics / array / reference
@@ -559,14 +606,17 @@ class Parser:
                     self.eat()
                     self.eat("<")
                     depth = 1
+                    tf = []
                     while depth:
                         x = self.eat().text
                         if x == "<":
                             depth += 1
                         elif x == ">":
                             depth -= 1
+                        if depth:
+                            tf.append(x)
                     a = self.args()
-                    e = Node("mcall", e, name.text, *a)
+                    e = Node("mcall", e, name.text, *a, turbofish="".join(tf))
                 else:
                     e = Node("field", e, name.text)
             elif self.at("("):
@@ -611,6 +661,11 @@ class Parser:
                 return Node("tuple", *items)
             self.eat(")")
             return Node("paren", e)
+        if t.text == "[":
+            k = match_close(self.t, self.i)
+            inner = " ".join(x.text for x in self.t[self.i + 1:k])
+            self.i = k + 1
+            return Node("array", inner)
         if t.text == "{":
             k = match_close(self.t, self.i)
             inner = Parser(self.t[self.i + 1:k], self.where).block()
@@ -625,11 +680,13 @@ class Parser:
             return self.primary()
         if t.kind == "ident":
             path = [self.eat().text]
+            generics = []
             while self.at("::"):
                 self.eat()
                 if self.at("<"):
-                    # generic args in path: skip
+                    # generic args in path: kept as text
                     depth = 0
+                    g = []
                     while True:
                         x = self.eat().text
                         if x == "<":
@@ -640,8 +697,18 @@ class Parser:
                             depth -= 2
                         if depth == 0:
                             break
+                        if not (x == "<" and depth == 1):
+                            g.append(x)
+                    generics.append("".join(g))
                     continue
                 path.append(self.eat().text)
+            # macro invocation: name!(..) / name![..] / name!{..}
+            if self.at("!") and self.peek(1).text in ("(", "[", "{"):
+                self.eat()
+                k = match_close(self.t, self.i)
+                inner = self.t[self.i + 1:k]
+                self.i = k + 1
+                return Node("macro", "::".join(path), " ".join(x.text for x in inner))
             # struct literal: Path { field: expr, .. } — only when path starts uppercase & next is `{`
             # and we are not in a condition context (conditions in this subset never name structs).
             if self.at("{") and path[-1][0].isupper() and self._struct_lit_ok():
@@ -649,7 +716,7 @@ class Parser:
                 inner = self.t[self.i + 1:k]
                 self.i = k + 1
                 return Node("struct", "::".join(path), self._struct_fields(inner))
-            return Node("path", *path)
+            return Node("path", *path, generics=generics) if generics else Node("path", *path)
         self.err(f"unexpected token {t.text!r}")
 
     no_struct = 0
@@ -740,6 +807,7 @@ class Parser:
         self.i = k + 1
         arms = []
         while p.peek().kind != "eof":
+            skip = p.attrs() if p.at("#") else False
             pat = p.pattern()
             guard = None
             if p.at("if"):
@@ -753,7 +821,8 @@ class Parser:
                 body = p.expr()
             if p.at(","):
                 p.eat()
-            arms.append((pat, guard, body))
+            if not skip:
+                arms.append((pat, guard, body))
         return Node("match", scrut, arms)
 
 
